@@ -25,6 +25,11 @@ var verifDir = "/verif"
 
 // loadProgram loads /repo's current working tree with the harness overlay.
 func loadProgram(replay bool) (*ssa.Program, *ssa.Package, error) {
+	for _, arg := range os.Args {
+		if strings.Contains(arg, "Testdata") {
+			withCorpus = true
+		}
+	}
 	overlay := map[string][]byte{}
 	overlay[filepath.Join(repoDir, "zz_verif_corpus.go")] = corpusSource()
 	files, _ := filepath.Glob(filepath.Join(verifDir, "harness", "*.go"))
